@@ -87,9 +87,58 @@ def try_builtin(name, args):
         if args and _is_opt(args[0]):
             o = args[0]
             return ("variant", "Continue", [o[2][0]], 0) if o[1] == "Some" else ("variant", "Break", [NONE], 1)
+    isres = lambda v: isinstance(v, tuple) and v[:1] == ("variant",) and v[1] in ("Ok", "Err") and len(v[2]) == 1
+    if name.endswith("::branch") and args and isres(args[0]):
+        r = args[0]
+        return ("variant", "Continue", [r[2][0]], 0) if r[1] == "Ok" else ("variant", "Break", [r], 1)
+    if name.endswith("::from_residual") and args and isres(args[0]) and args[0][1] == "Err":
+        return args[0]
     if (name.endswith("::from_residual") and "option::Option" in name) or name == "core::ops::try_trait::FromResidual::from_residual":
         if args and _is_opt(args[0]) and args[0][1] == "None":
             return NONE
+    return None
+
+
+def ok(x):
+    return ("variant", "Ok", [x], 0, ("0",), "core::result::Result")
+
+
+def err(x):
+    return ("variant", "Err", [x], 1, ("0",), "core::result::Result")
+
+
+def result_builtin(prog, name, args, call, depth, inline=False):
+    """Result combinators over abstract Result values"""
+    if not name.startswith("core::result::Result::"):
+        return None
+    m = name.split("::")[-1]
+    if not args or not (isinstance(args[0], tuple) and args[0][:1] == ("variant",) and args[0][1] in ("Ok", "Err")):
+        return None
+    r = args[0]
+    is_ok = r[1] == "Ok"
+    val = r[2][0]
+    if m == "is_ok":
+        return is_ok
+    if m == "is_err":
+        return not is_ok
+    if m == "ok":
+        return some(val) if is_ok else NONE
+    if m == "err":
+        return NONE if is_ok else some(val)
+    if m == "map" and len(args) == 2:
+        return ok(call_closure(prog, args[1], [val], call, depth, inline)) if is_ok else r
+    if m == "map_err" and len(args) == 2:
+        return r if is_ok else err(call_closure(prog, args[1], [val], call, depth, inline))
+    if m == "and_then" and len(args) == 2:
+        return call_closure(prog, args[1], [val], call, depth, inline) if is_ok else r
+    if m == "unwrap_or_else" and len(args) == 2:
+        return val if is_ok else call_closure(prog, args[1], [val], call, depth, inline)
+    if m == "unwrap_or" and len(args) == 2:
+        return val if is_ok else args[1]
+    if m in ("unwrap", "expect") and is_ok:
+        return val
+    if m in ("unwrap", "expect"):
+        raise Unrecognised("PANIC: %s on Err" % m)
     return None
 
 
@@ -338,6 +387,8 @@ def run(body, start_bb, env, call=None, max_steps=400, prog=None, depth=0, inlin
                 v = call(name, args, t)
             if v is None and prog is not None:
                 v = option_builtin(prog, name, args, call, depth, inline)
+            if v is None and prog is not None:
+                v = result_builtin(prog, name, args, call, depth, inline)
             if v is None:
                 v = try_builtin(name, args)
             if v is None:
